@@ -1545,6 +1545,10 @@ func genMp(w *bufio.Writer, r *rng, thorough bool, id string) {
 		for i := 0; i < 4; i++ {
 			emit(w, "ipa %s %s %s", r.pick(labels), polyDesc(r), r.scalar())
 		}
+		// dense polynomials at the boundary between in-domain and barycentric evaluation
+		for _, z := range []int64{0, 254, 255, 256} {
+			emit(w, "ipa %s r%d %s", labelHex("test"), 3+r.intn(1000), be32(big.NewInt(z)))
+		}
 	}
 }
 
